@@ -341,12 +341,21 @@ pub const fn ip_address_rr_type(address: &IpAddr) -> RRType {
     }
 }
 
-#[derive(Eq, PartialEq, Debug, Clone)]
+#[derive(Eq, Debug, Clone)]
 pub struct DnsEntry {
     pub(crate) name: String, // always lower case.
     pub(crate) ty: RRType,
     class: u16,
     cache_flush: bool,
+}
+
+/// The cache-flush bit travels in the class field but is not part of what a
+/// record is: a copy with the bit and one without it are the same record
+/// (RFC 6762 section 10.2; known answers never carry the bit, section 7.1).
+impl PartialEq for DnsEntry {
+    fn eq(&self, other: &Self) -> bool {
+        self.name == other.name && self.ty == other.ty && self.class == other.class
+    }
 }
 
 impl DnsEntry {
@@ -355,7 +364,6 @@ impl DnsEntry {
     fn eq_ignore_case(&self, other: &Self) -> bool {
         self.ty == other.ty
             && self.class == other.class
-            && self.cache_flush == other.cache_flush
             && self.name.eq_ignore_ascii_case(&other.name)
     }
 
